@@ -17,6 +17,13 @@ import Proofs.XdrStream
 import Proofs.XdrFuel
 import Proofs.XdrNoFuel
 import Proofs.XdrSrc
+import Proofs.XdrAudit
+import PydapModel.Handler
+import Proofs.Handler
+import Proofs.HandlerWF
+import Proofs.HandlerWire
+import Proofs.HandlerTyped
+import Proofs.HandlerDdsSplit
 namespace Pydap.C05
 open Pydap Pydap.Xdr
 open Pydap.Stream (SR srRead absSR)
@@ -122,6 +129,91 @@ theorem C05_content_length_declines (dds : Bytes) (cs : List Tmpl) (sh : List Na
   have hS : wireChar .string = 'S' := by decide
   simp [calcSize, calcData, hS]
 
+/-- **`calculate_size` declines exactly when it must** (round 7; replaces the two leaf cases above as the general
+    statement): no Content-Length is announced if and only if the declaration contains a Sequence or a String
+    variable at any depth (`Tmpl.streamed`, Proofs/XdrAudit.lean) — for every other declaration a length IS announced,
+    and by `C05_content_length` it is the real one -/
+theorem C05_content_length_declines_iff (dds : Bytes) (t : Tmpl) :
+    calcSize dds t = none ↔ t.streamed = true :=
+  calcSize_none_iff dds t
+
+/-- … so for a declaration without Sequence and String the header is present and right, for every value -/
+theorem C05_content_length_present (dds : Bytes) (t : Tmpl) (d : Data) (h : WF t d = true)
+    (hs : t.streamed = false) : calcSize dds t = some (body dds t d).length := by
+  cases hc : calcSize dds t with
+  | none => rw [(calcSize_none_iff dds t).mp hc] at hs; cases hs
+  | some n => rw [C05_content_length dds t d n h hc]
+
+/-! ### the whole data response of a request (round 7: the clauses "from the same constrained dataset", "its embedded
+    DDS equals the DDS response for the same request", "for all in-range constraint expressions")
+
+`Handler.respond fmt ds ext q` (PydapModel/Handler.lean, tied by C06/C15's correspondence `h-handle`) is the answer of
+`BaseHandler` to `/d.<ext>?q`; `Handler.constrained ds q` is `parse_ce` + selection + projection + hyperslabs.  The
+theorem below composes that model with the codec: for every source dataset that is well formed and typed (every value a
+value of the DAP2 type its variable declares) and EVERY query string that yields a constrained dataset (in-range
+hyperslabs on arrays / grids / structure members, sequence projections, ranges, selections, repeated items), the body of
+the data response is, byte for byte, the body of the DDS response for the same query, `Data:\n`, and the REFERENCE
+encoding of the constrained dataset; an announced Content-Length is its length; and the client's decoder reads the
+reference bytes back to the constrained data.  Hypothesis `Shaped`: the constrained declaration has no empty
+container and no array of ≥ 2^31 elements (outside C01's domain).  The model's values are integers and strings: floats
+occur as the bit patterns of integral values only (`f32bits`/`f64bits`); NaN/inf/−0.0 reach the wire through `encImpl`
+(`C05_encoder_exact`, `C05_representation_exact`), not through this composition. -/
+theorem C05_constrained_response_exact (fmt : Int → Handler.Str) (ds cds : Handler.Dataset) (q : Handler.Str)
+    (hw : ds.WF) (ht : ds.TY) (h : Handler.constrained ds q = .ok cds) (hs : cds.Shaped) :
+    Handler.respond fmt ds cs!"dds" q = .ok .dds (.complete (Handler.ddsText cds)) ∧
+    Handler.respond fmt ds cs!"dods" q = .ok .dods (.complete (Handler.ddsText cds ++ cs!"Data:\n" ++
+      Handler.bytesStr (XdrSpec.enc (Handler.tmplOf cds) (Handler.dataOf cds)))) ∧
+    WF (Handler.tmplOf cds) (Handler.dataOf cds) = true ∧
+    (∀ n, Handler.contentLength cds = some n → (Handler.ddsText cds ++ cs!"Data:\n" ++
+      Handler.bytesStr (XdrSpec.enc (Handler.tmplOf cds) (Handler.dataOf cds))).length = n) ∧
+    decImpl (Handler.tmplOf cds) (XdrSpec.enc (Handler.tmplOf cds) (Handler.dataOf cds))
+      = .ok (Handler.dataOf cds, []) := by
+  have hcw := Handler.constrained_wf ds cds q hw h
+  have hx := Handler.xdrWF_of_typed cds hcw (Handler.constrained_ty ds cds q ht h) hs
+  have hp : Handler.payload cds = XdrSpec.enc (Handler.tmplOf cds) (Handler.dataOf cds) := encImpl_eq _ _ hx
+  have e1 : Handler.rsplitDot (cs!"/d." ++ cs!"dds") = some (cs!"/d", cs!"dds") := by decide
+  have e2 : Handler.rsplitDot (cs!"/d." ++ cs!"dods") = some (cs!"/d", cs!"dods") := by decide
+  have n1 : (cs!"dds" = cs!"das") = False := by decide
+  have n2 : (cs!"dods" = cs!"das") = False := by decide
+  have k1 : Handler.lookupKind cs!"dds" = some .dds := by decide
+  have k2 : Handler.lookupKind cs!"dods" = some .dods := by decide
+  refine ⟨?_, ?_, hx, ?_, ?_⟩
+  · unfold Handler.respond Handler.handle
+    rw [Handler.guarded_eq ds _ q _ _ e1]; simp only [n1, if_false, h, k1]; rfl
+  · rw [← hp]
+    unfold Handler.respond Handler.handle
+    rw [Handler.guarded_eq ds _ q _ _ e2]; simp only [n2, if_false, h, k2]; rfl
+  · intro n hn
+    rw [← hp]
+    exact Handler.contentLength_body cds hcw n hn
+  · have := decImpl_enc (Handler.tmplOf cds) (Handler.dataOf cds) [] hx
+    rwa [List.append_nil] at this
+
+/-- non-vacuity of `C05_constrained_response_exact`: Byte flags[6] (values ≥ 128 too) followed by Int32 v[3], the
+    request `flags[1:3],v` — every hypothesis is met, and the data response is DDS ‖ `Data:` ‖ 3 Bytes + 1 pad ‖ v -/
+def exDs : Handler.Dataset := ⟨cs!"d", [
+  .base { name := cs!"flags", ty := cs!"Byte", shape := [6], dims := [], data := [10, 200, 12, 255, 14, 15] },
+  .base { name := cs!"v", ty := cs!"Int32", shape := [3], dims := [], data := [100, 200, 300] }]⟩
+def exCds : Handler.Dataset := ⟨cs!"d", [
+  .base { name := cs!"flags", ty := cs!"Byte", shape := [3], dims := [], data := [200, 12, 255],
+          view := some ⟨[6], [10, 200, 12, 255, 14, 15], [⟨1, 4, 1⟩]⟩ },
+  .base { name := cs!"v", ty := cs!"Int32", shape := [3], dims := [], data := [100, 200, 300] }]⟩
+example : Handler.constrained exDs cs!"flags[1:3],v" = .ok exCds := by decide +kernel
+example : exDs.WF := by
+  intro v hv; simp [exDs] at hv; rcases hv with rfl | rfl <;> exact ⟨rfl, rfl, trivial⟩
+example : exDs.TY ∧ exCds.Shaped := by
+  refine ⟨?_, by simp [exCds], ?_⟩
+  · intro v hv; simp [exDs] at hv
+    rcases hv with rfl | rfl <;> intro x hx <;> simp [Handler.Base.srcData] at hx <;>
+      rcases hx with rfl | rfl | rfl | rfl | rfl | rfl <;> (unfold Handler.okVal; decide)
+  · intro v hv; simp [exCds] at hv
+    rcases hv with rfl | rfl <;> simp [Handler.Var.Shaped, Handler.Base.Small, Handler.prod]
+example : XdrSpec.enc (Handler.tmplOf exCds) (Handler.dataOf exCds)
+    = [0,0,0,3, 0,0,0,3, 200,12,255,0,  0,0,0,3, 0,0,0,3, 0,0,0,100, 0,0,0,200, 0,0,1,44] := by decide +kernel
+example : (Tmpl.struct [.base .int32 [2], .struct [.base .float64 []]]).streamed = false ∧
+    (Tmpl.struct [.base .int32 [2], .struct [.base .string []]]).streamed = true ∧
+    (Tmpl.struct [.struct [.seq [.base .int32 []]]]).streamed = true := by decide
+
 /-- **the embedded DDS**: the body is DDS ‖ `Data:\n` ‖ XDR; when the separator `\nData:\n` does not
     occur earlier (no DDS line is `Data:`; checked on every real DDS by the harness) the client's split
     returns exactly the DDS (without its final newline) and the XDR bytes -/
@@ -135,6 +227,37 @@ theorem C05_dds_embedded (dds0 : Bytes) (t : Tmpl) (d : Data)
   refine ⟨e, ?_⟩
   rw [e]
   exact splitFirst_at splitPattern (by decide) dds0 (encImpl t d) hno
+
+/-- **the embedded DDS of a served response — the separator hypothesis discharged** (round 7).  `C05_dds_embedded`
+    assumes that `\nData:\n` does not occur inside the DDS.  For the DDS the handler model prints this is now PROVED
+    (`Handler.ddsText_sepFree`, Proofs/HandlerDdsSplit.lean: after the first line every line starts with a space or `}`),
+    whenever the names, type names and dimension names of the constrained dataset are ASCII without a newline
+    (`Dataset.Plain`; pydap %-quotes names, type names come from a table).  So, for every request as in
+    `C05_constrained_response_exact`: the DDS response is `s0 ‖ \n`, and the client's `raw.split(b"\nData:\n", 1)` of the
+    data response returns exactly `s0` — the DDS response without its final newline — and the reference bytes. -/
+theorem C05_dds_embedded_served (fmt : Int → Handler.Str) (ds cds : Handler.Dataset) (q : Handler.Str)
+    (hw : ds.WF) (ht : ds.TY) (h : Handler.constrained ds q = .ok cds) (hs : cds.Shaped) (hp : cds.Plain) :
+    ∃ s0 body, Handler.respond fmt ds cs!"dds" q = .ok .dds (.complete (s0 ++ ['\n'])) ∧
+      Handler.respond fmt ds cs!"dods" q = .ok .dods (.complete body) ∧
+      splitBody (Handler.strBytes body)
+        = some (Handler.strBytes s0, XdrSpec.enc (Handler.tmplOf cds) (Handler.dataOf cds)) := by
+  obtain ⟨s0, e, hsf⟩ := Handler.ddsText_sepFree cds hp
+  obtain ⟨r1, r2, _, _, _⟩ := C05_constrained_response_exact fmt ds cds q hw ht h hs
+  refine ⟨s0, _, by rw [← e]; exact r1, r2, ?_⟩
+  rw [e]
+  have : Handler.strBytes (s0 ++ ['\n'] ++ cs!"Data:\n" ++
+      Handler.bytesStr (XdrSpec.enc (Handler.tmplOf cds) (Handler.dataOf cds)))
+      = Handler.strBytes s0 ++ splitPattern ++ XdrSpec.enc (Handler.tmplOf cds) (Handler.dataOf cds) := by
+    rw [Handler.strBytes_append, Handler.strBytes_append, Handler.strBytes_append, Handler.strBytes_bytesStr]
+    simp [splitPattern, dataMarker, Handler.strBytes]
+  rw [this]
+  exact E2E.split_sepFree _ _ hsf
+
+example : exCds.Plain := by
+  refine ⟨E2E.plain_lit _ (by decide), ?_⟩
+  intro v hv; simp [exCds] at hv
+  rcases hv with rfl | rfl <;>
+    exact ⟨E2E.plain_lit _ (by decide), E2E.plain_lit _ (by decide), by simp⟩
 
 /-! ### the streaming readers (`StreamReader`: `open_dods_url`, `SequenceProxy.__iter__`)
 
